@@ -3,7 +3,7 @@ package sim
 import (
 	"crypto"
 	"crypto/rand"
-	_ "crypto/sha1"
+	"crypto/sha1"
 	_ "crypto/sha256"
 	_ "crypto/sha512"
 	"encoding/base64"
@@ -88,6 +88,9 @@ type SigSpec struct {
 	Key       *Key  // key that signs
 	Cert      *Cert // certificate placed in KeyInfo (may belong to a different key)
 	NoKeyInfo bool
+	// NameOnly (with NoKeyInfo): a KeyInfo that names Cert by subject key identifier, issuer and serial number, subject
+	// name, key name and key value, without embedding it. The message still carries no certificate.
+	NameOnly  bool
 	C14N      C14N
 	Hash      string
 	Place     int    // 0 right after Issuer; 1 first child; 2 last child
@@ -239,6 +242,22 @@ func BuildSignature(el *etree.Element, spec *SigSpec) (*etree.Element, error) {
 		ki := mk(sig, "KeyInfo")
 		xd := mk(ki, "X509Data")
 		mk(xd, "X509Certificate").SetText(base64.StdEncoding.EncodeToString(spec.Cert.DER))
+	}
+	if spec.NoKeyInfo && spec.NameOnly && spec.Cert != nil {
+		c := spec.Cert.X509
+		ki := mk(sig, "KeyInfo")
+		mk(ki, "KeyName").SetText(c.Subject.String())
+		xd := mk(ki, "X509Data")
+		ski := c.SubjectKeyId
+		if len(ski) == 0 {
+			sum := sha1.Sum(c.RawSubjectPublicKeyInfo)
+			ski = sum[:]
+		}
+		mk(xd, "X509SKI").SetText(base64.StdEncoding.EncodeToString(ski))
+		is := mk(xd, "X509IssuerSerial")
+		mk(is, "X509IssuerName").SetText(c.Issuer.String())
+		mk(is, "X509SerialNumber").SetText(c.SerialNumber.String())
+		mk(xd, "X509SubjectName").SetText(c.Subject.String())
 	}
 	work.RemoveChild(sig)
 	return sig, nil
